@@ -10,6 +10,7 @@ CONSTANTS
   WithElif = TRUE
   StrayBase = {}
   StrayOps = {}
+  XKinds = {}
   Enumerate = FALSE
 INVARIANTS WellFormed NoSideEffectsOnFailure RecalledMarked ExitShape CompiledAgrees Emit
 CHECK_DEADLOCK FALSE
